@@ -50,6 +50,7 @@ const (
 	ErrMsgRspTooLarge             Error = "-ERR rsp msg length too large\r\n"
 	ErrMsgReqWrongArgumentsNumber Error = "-ERR wrong number of arguments\r\n"
 	ErrMsgRequestTimeout          Error = "-ERR proxy request timeout\r\n"
+	ErrTooManyRedirects           Error = "-ERR too many cluster redirections\r\n"
 	ErrAuthInvalidPassword        Error = "-ERR invalid password\r\n"
 	ErrAuthNeedNtPassword         Error = "-ERR Client sent AUTH, but no password is set\r\n"
 )
